@@ -227,7 +227,8 @@ def _disjoint_sum(I, a, b):
     ctx = I.ctx
     x, y = zi(a), zi(b)
     for lo, hi in ((x, y), (y, x)):
-        ctx.solver.set("timeout", ctx.feas_ms)
+        from .ctx import _budget
+        _budget(ctx.solver, ctx.feas_ms)
         ctx.solver.push()
         ctx.solver.add(hi != 0)
         r = ctx.solver.check()
